@@ -112,12 +112,17 @@ def r08_3(chk, P, E):
 
 
 def r08_5(chk, P, E):
-    chk.rule('R08.5', 'in ov_raw_seek, ov_pcm_seek_page and ov_pcm_seek no store to the handle and no call writing it happens '
+    chk.rule('R08.5', 'in ov_raw_seek, ov_pcm_seek_page, ov_pcm_seek and the lap helpers that wrap them (file-local functions that call a seek through a function-pointer parameter) no store to the handle and no call writing it happens '
              'before the position argument has been range-checked on that path (compared against a lower and an upper '
              'bound) or handed to another seek entry point that does so: there is no way around the argument validation')
     touch = k2.any_of(k2.stores_field(VF, None, ops=None), k2.call_writes_object(P, E, VF))
     n = 0
-    for fn in ('ov_raw_seek', 'ov_pcm_seek_page', 'ov_pcm_seek'):
+    # the lap helpers consume decoder output (for the cross-fade) before they hand the position to the plain seek: they need the
+    # range check themselves, or a rejected request has already moved the decoder
+    lap_helpers = [G.name for G in P.functions() if G.file.endswith('vorbisfile.c') and G.static and len(G.params) >= 3
+                   and G.params[0].get('record') == VF and any('(*)' in p_.get('t', '') for p_ in G.params)
+                   and any(G.ex[c]['callee'].get('param') is not None for c in G.calls())]
+    for fn in ['ov_raw_seek', 'ov_pcm_seek_page', 'ov_pcm_seek'] + sorted(lap_helpers):
         F = P.need(fn)
         pos = F.params[1]['id']
 
@@ -129,32 +134,37 @@ def r08_5(chk, P, E):
             return False
 
         def lo(A, env, e):
+            # the position compared with zero (either spelling: pos<0, !(pos>=0), 0>pos)
             nd = A.ex[e]
             if nd['k'] == 'bin' and nd['op'] in ('<', '<=', '>', '>='):
                 a, b = nd['c']
-                if mentions_pos(A, a) and A.peek(env, b).const() == 0 and nd['op'] in ('<', '<='):
+                if mentions_pos(A, a) and A.peek(env, b).const() == 0:
                     return True
-                if mentions_pos(A, b) and A.peek(env, a).const() == 0 and nd['op'] in ('>', '>='):
+                if mentions_pos(A, b) and A.peek(env, a).const() == 0:
                     return True
             return False
 
         def hi(A, env, e):
+            # the position compared with a non-constant bound (the end of the file, the total length, the total time)
             nd = A.ex[e]
             if nd['k'] == 'bin' and nd['op'] in ('<', '<=', '>', '>='):
                 a, b = nd['c']
-                if mentions_pos(A, a) and nd['op'] in ('>', '>=') and A.peek(env, b).const() is None:
+                if mentions_pos(A, a) and A.peek(env, b).const() is None and not mentions_pos(A, b):
                     return True
-                if mentions_pos(A, b) and nd['op'] in ('<', '<=') and A.peek(env, a).const() is None:
+                if mentions_pos(A, b) and A.peek(env, a).const() is None and not mentions_pos(A, a):
                     return True
             return False
 
         def delegated(A, env, e):
             nd = A.ex[e]
-            return nd['k'] == 'call' and nd['callee'].get('d') in SEEKS and len(nd['c']) > 1 and mentions_pos(A, nd['c'][1])
+            if nd['k'] != 'call' or len(nd['c']) < 2 or not mentions_pos(A, nd['c'][1]):
+                return False
+            # a plain seek entry point, directly or through the function-pointer parameter of a lap helper
+            return nd['callee'].get('d') in SEEKS or nd['callee'].get('param') is not None
 
         def watch(A, e):
             nd = A.ex[e]
-            if nd['k'] == 'call' and nd['callee'].get('d') in SEEKS:
+            if nd['k'] == 'call' and (nd['callee'].get('d') in SEEKS or nd['callee'].get('param') is not None):
                 return False
             return touch(A, None if False else {}, e) if nd['k'] in ('assign', 'un', 'call') else False
         A, h = k2.analyse(P, F, [('lo', lo, True), ('hi', hi, True), ('delegated', delegated, True)], watch=watch)
